@@ -70,6 +70,8 @@ def _record(word, topo):
         return SeqRecord(Seq(word), id="r", annotations={"topology": "linear"})
     if topo == "r":
         return SeqRecord(Seq(word), id="r", annotations={"topology": "circular"})
+    if topo == "u":
+        return SeqRecord(Seq(word), id="r")          # no topology annotation at all
     return CircularRecord(Seq(word), id="r")
 
 
@@ -176,7 +178,8 @@ def check(spec, ctx):
                             "query %d: %s on %r (%s) answers %r after validating %r, but %r when "
                             "asked first in a fresh interpreter" % (
                                 i, cname, words[wi], {"c": "CircularRecord", "l": "linear SeqRecord",
-                                                      "r": "circular SeqRecord"}[topo],
+                                                      "r": "circular SeqRecord",
+                                                      "u": "SeqRecord without topology"}[topo],
                                 res, prior, want))
         if any(_related(cname, p[0]) for p in history[:i]):
             nontrivial = True
@@ -292,11 +295,11 @@ def _histories(draw):
         q = [cn, draw(st.integers(0, nrec - 1))]
         t = draw(st.integers(0, 5))
         if t >= 4:
-            q.append("l" if t == 4 else "r")
+            q.append(draw(st.sampled_from(["l", "r", "u"])))
         history.append(q)
         if history and draw(st.integers(0, 5)) == 0:
             # the same class on the same nucleotides under another topology
-            history.append([q[0], q[1], draw(st.sampled_from(["l", "r", "c"]))])
+            history.append([q[0], q[1], draw(st.sampled_from(["l", "r", "c", "u"]))])
     if variant_pair:
         # the record and its one-more-site variant typed by the same class, in a drawn order
         pair = [[rec_classes[0], 0], [rec_classes[0], nrec - 1]]
